@@ -87,8 +87,8 @@ def cases(tier, seed):
 
 def targets(tier):
     k = 1 if tier == "quick" else 10
-    return {"pairs_checked": 450 * k, "pairs_unequal_sizes": 180 * k, "pairs_cross_duplicates": 120 * k, "pairs_with_distance_ties": 80 * k,
-            "nndvi_updates": 900 * k, "nndvi_drifts": 200 * k, "nndvi_unequal_pairs": 300 * k, "permutations_parsed": 10000 * k,
+    return {"pairs_checked": 400 * k, "pairs_unequal_sizes": 180 * k, "pairs_cross_duplicates": 120 * k, "pairs_with_distance_ties": 80 * k,
+            "nndvi_updates": 700 * k, "nndvi_drifts": 200 * k, "nndvi_unequal_pairs": 300 * k, "permutations_parsed": 10000 * k,
             "nndvi_reference_kept": 300 * k, "nndvi_k_exceeds_test_batch": 40 * k}
 
 
